@@ -50,11 +50,12 @@ Proof. exact commit_syncs_dirty. Qed.
 Print Assumptions C02_commit_syncs_bank_with_cache_on_dirty_accounts.
 
 (** Every pure EVM transaction without SELFDESTRUCT — any call tree of value transfers between any of the
-    accounts, storage writes, logs, reverts at any place with catching or propagating
-    callers, any amounts — leaves the total supply of the native coin unchanged.  This
+    accounts, storage writes, logs, contract creations (CREATE with any endowment, at any depth, constructors
+    running any such code, at addresses that hold coins already, failing or succeeding), reverts at any
+    place with catching or propagating callers, any amounts — leaves the total supply of the native coin unchanged.  This
     is about the real transaction function [run_tx] (empty cache, lazy loading, final
     commit); [closedb order] only says that the commit's address list contains every
-    call target, [world_ok] that non-existing accounts hold no coins. *)
+    call target and every creation address, [world_ok] that non-existing accounts hold no coins. *)
 Theorem C02_pure_transaction_conserves_supply :
   forall order W0 value c body,
     NoDup order -> world_ok W0 -> (forall a, a ∈ wexists W0 -> a ∈ order) -> 0%N ∈ order -> c ∈ order ->
@@ -64,7 +65,8 @@ Proof. exact pure_run_tx_conserves_supply. Qed.
 Print Assumptions C02_pure_transaction_conserves_supply.
 
 (** With SELFDESTRUCT anywhere in the call tree (self-beneficiary, repeated, inside reverted frames,
-    value sent to dead contracts): pure EVM code NEVER MINTS.  The supply after the transaction is at
+    value sent to dead contracts, constructors that self-destruct, re-creation over a destroyed
+    contract): pure EVM code NEVER MINTS.  The supply after the transaction is at
     most the supply before; what is missing is what self-destructed contracts held when they were
     deleted, the sanctioned burn.  [okv]: call values are non-negative, call targets and beneficiaries
     are in the commit's address list; [bank_nn]: bank balances are non-negative. *)
@@ -86,6 +88,23 @@ Theorem C02_never_mints_premises_hold_example :
   supply (fst (run_tx order W0 25 (TopCall 2%N [ISelfdestruct 2%N]))) < supply W0.
 Proof. exact never_mints_premises_hold. Qed.
 Print Assumptions C02_never_mints_premises_hold_example.
+
+(** non-vacuity with contract creations: the premises hold for the program, state and address order of witness
+    w_cr_nested_reverted_then_selfdestruct (a creation inside a reverted frame, a creation at an address that was
+    sent coins before, a constructor that self-destructs to the origin), and there the supply is conserved exactly *)
+Theorem C02_never_mints_premises_hold_with_creations_example :
+  let x := w_cr_nested_reverted_then_selfdestruct in
+  let W0 := wit_world x in let order := wit_order x in
+  match e_top (fst (fst x)) with
+  | TopCall t body =>
+      NoDup order /\ world_ok W0 /\ bank_nn W0 /\ (forall a, a ∈ wexists W0 -> a ∈ order) /\ 0%N ∈ order /\ t ∈ order /\
+      0 <= e_value (fst (fst x)) /\ forallb pure body = true /\ forallb (okv order) body = true /\
+      existsb (fun i => match i with ICreate _ _ _ _ _ _ => true | _ => false end) body = true /\
+      supply (fst (run_tx order W0 (e_value (fst (fst x))) (TopCall t body))) = supply W0
+  | TopPre _ => False
+  end.
+Proof. exact never_mints_premises_hold_with_creations. Qed.
+Print Assumptions C02_never_mints_premises_hold_with_creations_example.
 
 (** Pure EVM code cannot touch the bank or the supply before the final commit. *)
 Theorem C02_pure_code_never_touches_the_bank_partial :
